@@ -241,6 +241,66 @@ def impl_oracles(ctx, scal, arr, full):
                 fail(f"foreign-accepted:{c.__name__}", f"{c.__name__}.to({al!r}) was accepted", {"class": c.__name__, "to": al})
             except (TypeError, ValueError):
                 pass
+    # integer-dtype arrays: a conversion must either give the correct (float) numbers or refuse and
+    # leave array and units untouched -- never truncated numbers with the new unit label
+    for c in arr:
+        units = list(c.implemented_units)
+        ints = [0, 1, -2, 3, 7, -5, 2, 4, 9]
+        for u, v in itertools.product(units, units):
+            if u is v:
+                continue
+            for dt in (np.int64, np.int32):
+                for inplace in (False, True):
+                    try:
+                        a = make_array(c, np.array(ints, dtype=dt), u)
+                    except Exception:
+                        continue
+                    if not np.issubdtype(np.asarray(a).dtype, np.integer):
+                        continue
+                    before = np.asarray(a).flatten().tolist()
+                    ctx.count("impl-oracle", (c.__name__, u.name, v.name, str(dt), inplace, "int-array"))
+                    try:
+                        r = a.to_(v) if inplace else a.to(v)
+                        r = a if inplace else r
+                    except Exception:
+                        if np.asarray(a).flatten().tolist() != before or a.units is not u:
+                            fail(f"array-int-refusal-mutates:{c.__name__}", f"{c.__name__}[{np.dtype(dt).name}] {u.name}->{v.name} raised but changed the array/units",
+                                 {"class": c.__name__, "from": u.name, "to": v.name, "dtype": np.dtype(dt).name, "xs": before})
+                        continue
+                    want = [float(exact_conv(x, u, v)) for x in before]
+                    got = np.asarray(r).flatten().tolist()
+                    if not all(relclose(float(g), w) for g, w in zip(got, want)):
+                        fail(f"array-int-truncated:{c.__name__}", f"{c.__name__}[{np.dtype(dt).name}] {before} {u.name} -> {v.name} gives {got} labelled {r.units}, the conversion is {want}",
+                             {"class": c.__name__, "from": u.name, "to": v.name, "dtype": np.dtype(dt).name, "xs": before, "inplace": inplace})
+    # Energy family: == has its own tolerance (0.0000159 Ha); it must be symmetric and give the same
+    # answer as comparing after conversion of both operands to ANY common unit
+    seps = [0.0, 1e-6, -1e-6, 1e-3, -1e-3, 0.7] if full else [0.0, 1e-6, 1e-3, 0.7]
+    bases = [0.0, -1.25, 40.5] if full else [-1.25]
+    for c in [k for k in scal if issubclass(k, V.Energy)]:
+        units = list(c.implemented_units)
+        for u, v in itertools.product(units, units):
+            for base in bases:
+                for sep in seps:
+                    a = c(float(exact_conv(base, units[0], u)), units=u)
+                    b = c(float(exact_conv(base + sep, units[0], v)), units=v)
+                    ctx.count("impl-oracle", (c.__name__, u.name, v.name, base, sep, "energy-eq"), nontrivial=(u is not v))
+                    if abs(abs(sep) - 0.0000159) < 2e-6:
+                        continue
+                    want = abs(sep) < 0.0000159
+                    eq, req, ne = (a == b), (b == a), (a != b)
+                    le, ge, lt, gt = (a <= b), (a >= b), (a < b), (a > b)
+                    bad = []
+                    if eq != want or req != want or ne == eq:
+                        bad.append(f"a==b={eq} b==a={req} a!=b={ne}, |a-b| = {abs(sep)} Ha so equality must be {want}")
+                    if le != (lt or eq) or ge != (gt or eq):
+                        bad.append(f"a<=b={le} a<b={lt} a==b={eq} a>=b={ge} a>b={gt}")
+                    for w in units:
+                        if (a.to(w) == b.to(w)) != eq:
+                            bad.append(f"a==b={eq} but a.to({w.name})==b.to({w.name}) is {a.to(w) == b.to(w)}")
+                            break
+                    if bad:
+                        fail(f"energy-eq:{c.__name__}", f"{c.__name__}: a={float(a)!r} {u.name}, b={float(b)!r} {v.name}: " + "; ".join(bad),
+                             {"class": c.__name__, "a": [float(a), u.name], "b": [float(b), v.name], "sep_ha": sep})
     # declared constants vs unit factors (runtime)
     import autode.units as U
     from autode.constants import Constants as C
